@@ -21,7 +21,7 @@ PROPS = {
         vx_units=['vfs', 'pt'], kx=[],
         design_ref='DESIGN.md section 5, C06',
         not_covered=[
-            'symlink / hard-link / rename-of-directory-in-use semantics, O_NOFOLLOW, /proc/self/fd re-opening: kernel semantics behind libc calls',
+            'symlink / hard-link / rename-of-directory-in-use semantics: kernel behaviour behind libc calls (what is proved is which FLAGS reach openat and which inode TYPES are re-opened, with openat / InodeData::open_file as capability-guarded externals)',
             'the name checks at the twelve call sites inside passthrough mutators (functions made of syscalls; no partial extraction)',
             'PassthroughFs::do_lookup ".." -> "." rewrite at the export root',
         ],
